@@ -37,6 +37,11 @@ def handle (op : String) (j : Json) : Option (Except String Json) :=
     let ml ← J.bool (← J.field j "maintain")
     let manual ← J.bool (← J.field j "manual")
     .ok (ofExcept ofRed (reduceNumberOfTerms tol A stabs ml manual (← optNatList j "fixed")))
+  | "c16.taper_hyp" => some do
+    let A ← J.op (← J.field j "A")
+    let stabs ← J.listOf J.op (← J.field j "stabs")
+    let manual ← J.bool (← J.field j "manual")
+    .ok (Json.bool (taperHypX tol A stabs manual (← optNatList j "fixed")))
   | "c16.taper" => some do
     let A ← J.op (← J.field j "A")
     let stabs ← J.listOf J.op (← J.field j "stabs")
